@@ -12,7 +12,8 @@ PROPERTY = "C53"
 LOG = "python/logfile.py"
 QL = "twisted.python.logfile.LogFile"
 QB = "twisted.python.logfile.BaseLogFile"
-TECHNIQUE = "order typestate over CFG paths, dominance, symbolic name forms, normalised comparisons"
+TECHNIQUE = ("order typestate over CFG paths, dominance, symbolic name forms, normalised comparisons; second layer (bounded): rotate() interpreted on every directory "
+             "holding a subset of path.1..path.5 under six retention limits (rotate/evaluated-outcome)")
 EXPLANATION = (
     "Decides: (a) listLogs() returns integers sorted ascending (numeric, sort after the last append) and rotate() walks them in "
     "descending order (exactly one reversal on every path to the loop), renaming i -> i+1 with one format, so no rename "
@@ -818,6 +819,10 @@ MUTANTS = [
            expect_rule="order/listLogs-ascending"),
     Mutant("access-test-dropped", LOG, "        if not (os.access(self.directory, os.W_OK) and os.access(self.path, os.W_OK)):\n            return\n        logs = self.listLogs()",
            "        if not os.access(self.path, os.W_OK):\n            return\n        logs = self.listLogs()", expect_rule="sequence/untouched-when-not-writable"),
+    # ---- round-3 shapes: the list kept sorted by bisect.insort; the shift split into a removing pass and a renaming pass
+    Mutant("insort-kept-list-reversed-at-the-end", LOG, '                if counter:\n                    result.append(counter)\n            except ValueError:\n                pass\n        result.sort()\n        return result\n', '                if counter:\n                    bisect.insort(result, counter)\n            except ValueError:\n                pass\n        result.reverse()\n        return result\n', expect_rule="order/listLogs-ascending"),
+    Mutant("two-pass-rotate-renames-lowest-first", LOG, '        logs = self.listLogs()\n        logs.reverse()\n        for i in logs:\n            if self.maxRotatedFiles is not None and i >= self.maxRotatedFiles:\n                os.remove("%s.%d" % (self.path, i))\n            else:\n                os.rename("%s.%d" % (self.path, i), "%s.%d" % (self.path, i + 1))\n', '        logs = self.listLogs()\n        keep = len(logs)\n        if self.maxRotatedFiles is not None:\n            while keep and logs[keep - 1] >= self.maxRotatedFiles:\n                keep -= 1\n                os.remove("%s.%d" % (self.path, logs[keep]))\n        for i in logs[:keep]:\n            os.rename("%s.%d" % (self.path, i), "%s.%d" % (self.path, i + 1))\n', expect_rule="rotate/evaluated-outcome"),
+    Mutant("two-pass-rotate-keeps-one-too-many", LOG, '        logs = self.listLogs()\n        logs.reverse()\n        for i in logs:\n            if self.maxRotatedFiles is not None and i >= self.maxRotatedFiles:\n                os.remove("%s.%d" % (self.path, i))\n            else:\n                os.rename("%s.%d" % (self.path, i), "%s.%d" % (self.path, i + 1))\n', '        logs = self.listLogs()\n        keep = len(logs)\n        if self.maxRotatedFiles is not None:\n            while keep and logs[keep - 1] > self.maxRotatedFiles:\n                keep -= 1\n                os.remove("%s.%d" % (self.path, logs[keep]))\n        for i in reversed(logs[:keep]):\n            os.rename("%s.%d" % (self.path, i), "%s.%d" % (self.path, i + 1))\n', expect_rule="rotate/evaluated-outcome"),
 ]
 SILENT = [
     Silent("reversed-in-loop-header", LOG, "        logs = self.listLogs()\n        logs.reverse()\n        for i in logs:", "        logs = self.listLogs()\n        for i in reversed(logs):"),
@@ -864,4 +869,6 @@ SILENT = [
     Silent("rotate-length-in-a-temporary", LOG, "        return self.rotateLength and self.size >= self.rotateLength", "        limit = self.rotateLength\n        return bool(limit) and self.size >= limit"),
     Silent("exists-test-in-a-temporary", LOG, "        if os.path.exists(self.path):\n            self._file = cast(BinaryIO, open(self.path, \"rb+\", 0))\n            self._file.seek(0, 2)\n        else:",
            "        alreadyThere = os.path.exists(self.path)\n        if alreadyThere:\n            self._file = cast(BinaryIO, open(self.path, \"rb+\", 0))\n            self._file.seek(0, os.SEEK_END)\n        else:"),
+    Silent("listLogs-kept-sorted-by-insort", LOG, '                if counter:\n                    result.append(counter)\n            except ValueError:\n                pass\n        result.sort()\n        return result\n', '                if counter:\n                    bisect.insort(result, counter)\n            except ValueError:\n                pass\n        return result\n', more=[(LOG, "import glob\n", "import bisect\nimport glob\n")]),
+    Silent("rotate-in-a-removing-and-a-renaming-pass", LOG, '        logs = self.listLogs()\n        logs.reverse()\n        for i in logs:\n            if self.maxRotatedFiles is not None and i >= self.maxRotatedFiles:\n                os.remove("%s.%d" % (self.path, i))\n            else:\n                os.rename("%s.%d" % (self.path, i), "%s.%d" % (self.path, i + 1))\n', '        logs = self.listLogs()\n        keep = len(logs)\n        if self.maxRotatedFiles is not None:\n            while keep and logs[keep - 1] >= self.maxRotatedFiles:\n                keep -= 1\n                os.remove("%s.%d" % (self.path, logs[keep]))\n        for i in reversed(logs[:keep]):\n            os.rename("%s.%d" % (self.path, i), "%s.%d" % (self.path, i + 1))\n'),
 ]
